@@ -292,7 +292,18 @@ static void do_park(void)
 	if (g_timeout) return;            /* the loop is gone or stuck: reported as TIMEOUT, do not wait again */
 	__atomic_store_n(&g_pause_req, 1, __ATOMIC_RELEASE);
 	muggle_evloop_wakeup(g_evloop);
-	if (sem_wait_to(&g_sem_parked, 20) != 0) g_timeout++;
+	if (sem_wait_to(&g_sem_parked, 20) != 0) {
+		g_timeout++;
+		/* one case of a process may report TIMEOUT in its `end` line; on a tree where the loop never
+		 * answers, every further case would cost another 20 s: stop the process (a crash result) */
+		static int stuck_cases;
+		if (++stuck_cases > 1) {
+			static const char msg[] = "hang: the event loop did not answer a wake-up within 20 s (second case of this process)\n";
+			ssize_t r = write(2, msg, sizeof msg - 1); (void)r;
+			fflush(stdout);
+			_exit(97);
+		}
+	}
 }
 static void do_unpark(void) { if (!g_timeout) sem_post(&g_sem_resume); }
 static long activity(void) { pthread_mutex_lock(&g_mu); long a = g_activity; pthread_mutex_unlock(&g_mu); return a; }
